@@ -59,6 +59,47 @@ def build_case(root, cfgname, seed, steps, workers=1):
     scenario.build(root, **kw)
 
 
+def diff_scoped(a, b, cfgname):
+    """l2.diff_states within the property's scope.  The property covers order-parameter values
+    representable at the six decimals of the stored order files.  A real MD engine (TurtleMD)
+    produces values with more decimals: the straight run prints the 'max OP' column (five
+    decimals) from the full-precision number, the restarted run from the six-decimal one, and the
+    two can round differently in the last digit.  For such engines that column may differ by
+    one unit of its last digit; everything else stays byte-exact (lattice engines: all of it)."""
+    df = l2.diff_states(a, b)
+    if cfgname != "turtle":
+        return df
+    out = []
+    for k in df:
+        if not k.startswith("infretis_data") or k not in a or k not in b:
+            out.append(k)
+            continue
+        la, lb = a[k].decode().split("\n"), b[k].decode().split("\n")
+        same = len(la) == len(lb)
+        for x, y in zip(la, lb):
+            if not same:
+                break
+            if x == y:
+                continue
+            cx, cy = x.split("\t"), y.split("\t")
+            if len(cx) != len(cy) or len(cx) < 4:
+                same = False
+                break
+            for i, (u, v) in enumerate(zip(cx, cy)):
+                if u == v:
+                    continue
+                try:
+                    ok = i == 3 and abs(float(u) - float(v)) <= 1.1e-5
+                except ValueError:
+                    ok = False
+                if not ok:
+                    same = False
+                    break
+        if not same:
+            out.append(k)
+    return out
+
+
 def straight(base, cfgname, seed, k, workers=1):
     d = os.path.join(base, f"S{k}")
     os.makedirs(d)
@@ -90,7 +131,7 @@ def _job(args):
         build_case(d2, cfgname, seed, N)
         l2.Program(d2).run()
         n_runs += 1
-        df = l2.diff_states(S[N], l2.state_of(d2))
+        df = diff_scoped(S[N], l2.state_of(d2), cfgname)
         if df:
             bad.append(("two-runs-differ", f"same seed, two runs of {N} steps differ in {df[:4]}", dict(k=N)))
         distinct = len({repr(sorted((k2, v if not isinstance(v, dict) else repr(v)) for k2, v in s.items())) for s in S.values()})
@@ -103,7 +144,7 @@ def _job(args):
             if res != "done":
                 bad.append(("restart-refused", f"restart from {k} to {k2} steps: setup_config returned None", dict(k=k, k2=k2)))
                 continue
-            df = l2.diff_states(S[k2], l2.state_of(d))
+            df = diff_scoped(S[k2], l2.state_of(d), cfgname)
             if df:
                 what = "data-file" if any(x.startswith("infretis_data") for x in df) else ("restart-file" if "restart.toml" in df else "path-files")
                 detail = ""
